@@ -206,18 +206,26 @@ def render_def(name, d, prog, pkg):
         else:
             expr = ("aux." if td["where"] == "aux" else "mod.") + t
         if td is not None and td["kind"] == "var" or td is None:
-            if td is None:
-                L.append("    r.append(%s if %r in globals() else None)" % (expr, t))
+            if td is None or t in prog.get("late", []):
+                # a symbol that is (or once was) undefined: the reference is written the same way before and after
+                L.append("    r.append(%s if %r in globals() else None)" % (t, t))
             elif form == "chained":
                 L.append("    r.append(_box(%s).val)" % expr)
             else:
                 L.append("    r.append(%s)" % expr)
-        elif form == "chained":
-            L.append("    r.append(_box(%s(x - 1) if x > 0 else None).val)" % expr)
         elif form == "hidden":
             L.append("    r.append(globals()[%r](x - 1) if x > 0 else None)" % t)
         else:
-            L.append("    r.append(%s(x - 1) if x > 0 else None)" % expr)
+            if "." in expr:
+                # `module.func(...)` compiles differently in a module file (where the compiler sees the import and
+                # skips the method-call optimisation) and in a separately compiled definition (exec / notebook cell):
+                # bind the attribute first so that the bytecode is the same however the definition is delivered
+                L.append("    _t = %s" % expr)
+                expr = "_t"
+            if form == "chained":
+                L.append("    r.append(_box(%s(x - 1) if x > 0 else None).val)" % expr)
+            else:
+                L.append("    r.append(%s(x - 1) if x > 0 else None)" % expr)
     L.append("    return r")
     return "\n".join(L) + "\n"
 
